@@ -637,10 +637,12 @@ fn scenario_reload(ctx: &mut Ctx, runner: &Runner, sc: usize) {
             let npre = fed.len();
             fed.extend(post.iter().map(|c| (*c.input).clone()));
             let mut f = runner.load(&vpl2).unwrap();
-            verif::start();
+            // one call per event, through the same entry point (the sync path's rename skipping shows in the recorded outputs)
             let mut ok = true;
-            for e in &fed { if runner.rt.block_on(f.engine.process(e.clone())).is_err() { ok = false; break; } }
-            let calls_ref = verif::take();
+            let mut calls_ref: Vec<verif::StreamCall> = Vec::new();
+            for e in &fed {
+                match runner.feed(&mut f, path, vec![e.clone()]) { Ok((_, c)) => calls_ref.extend(c), Err(_) => { ok = false; break; } }
+            }
             let mine: Vec<&verif::StreamCall> = calls_ref.iter().filter(|c| c.stream == d2.name).collect();
             let sid = it.ty(&d2.name);
             let op = format!("iso {} {} changed={}", k, sid, (!unchanged) as u8);
